@@ -94,6 +94,10 @@ where
         d.equal(old_range.start, new_range.start, common_prefix_len)?;
     }
 
+    #[cfg(similar_verif)]
+    if maybe_table.is_none() {
+        crate::verif::hit(3);
+    }
     if let Some(table) = maybe_table {
         while new_idx < new_len && old_idx < old_len {
             let old_orig_idx = old_range.start + common_prefix_len + old_idx;
@@ -113,14 +117,9 @@ where
                 new_idx += 1;
             }
         }
-    } else {
-        #[cfg(similar_verif)]
-        crate::verif::hit(3);
-        let old_orig_idx = old_range.start + common_prefix_len + old_idx;
-        let new_orig_idx = new_range.start + common_prefix_len + new_idx;
-        d.delete(old_orig_idx, old_len, new_orig_idx)?;
-        d.insert(old_orig_idx, new_orig_idx, new_len)?;
     }
+    // without a table (deadline reached) the remaining delete and insert are
+    // emitted by the tail handling below
 
     if old_idx < old_len {
         d.delete(
